@@ -47,12 +47,13 @@ conf() {
   PKG=""; RACE=0; QT='^Test'; TT='^Test'; SHARDS=16; QLIM=900; TLIM=3600; JDISK=0
   case "$1" in
     C01) PKG=c01;;
+    C02) PKG=c02;;
     *) return 1;;
   esac
   QT="${QT}"; return 0
 }
 
-ALL_IDS="C01"
+ALL_IDS="C01 C02"
 
 build_one() { # id -> builds $BIN
   conf "$1" || { echo "check.sh: unknown property $1" >&2; return 2; }
